@@ -119,9 +119,9 @@ Proof. unfold is_union_member. apply existsb_perm, E. Qed.
 Lemma sub_type_eq : forall t s, sub_type a t s = sub_type b t s.
 Proof.
   induction t as [n|t IH|t IH]; intros s; simpl.
-  - destruct s; try reflexivity. now rewrite !has_kind_eq, is_union_member_eq, iface_member_of_eq.
-  - destruct s; try reflexivity; now rewrite IH.
-  - destruct s; try reflexivity; now rewrite IH.
+  - destruct (strip_nn s); try reflexivity. now rewrite !has_kind_eq, is_union_member_eq, iface_member_of_eq.
+  - destruct (strip_nn s); try reflexivity. apply IH.
+  - destruct s; try reflexivity. apply IH.
 Qed.
 
 Lemma dir_args_perm d : Permutation (dir_args a d) (dir_args b d).
